@@ -2,6 +2,7 @@ import Spine.HeapThm
 import Spine.C04Thm
 import Spine.C04Wit
 import Spine.ExtractFilter
+import Spine.C04Applied
 /-!
 # C04 — write-protected elements stay untouched and remote writes are all-or-nothing
 
@@ -48,7 +49,22 @@ The four clauses:
 4. success ⇒ all changes applied. Merge path: PROVED at full strength for members with `mergeStrict` off, i.e.
    /repo now (`c04_success_all_applied_merge`: every incoming item finds its element, every addressed element is the
    overlay, the overlay carries every named field but the flag). Record: `c04_success_applied_refuted_before_fix`.
-   Selector / identifier-less / delete paths: monitored only (`notApplied` of the harness); no theorem.
+   Selector / identifier-less / delete paths and their combinations: PROVED for every member, every shape
+   (`c04_success_all_applied`: the list a successful `UpdateList` call returns is the COMPLETE application of the
+   delete part and then of the partial part — the functions `delApplied`, `selApplied`, `allApplied` contain no
+   writability test and skip nothing; `c04_success_all_applied_store`: the same for the data stored by
+   `FunctionData.UpdateData`; `c04_success_selector_writable`, `c04_success_delete_addressed_writable`: a successful
+   remote write addressed writable elements only; `c04_applied_fields_*`: what "applied" means field by field —
+   every named field but the flag is carried resp. cleared, every hit element is gone).
+3'. clause 3, exact region (`c04_error_unchanged_exact`, every member): an error answer leaves the data as it was
+   whenever the delete filter names no elements and the partial part, on an in-place path, addresses no writable
+   stored element (`partialTouches = false`; the merge path is always inside). The complement is where the three
+   witnesses of `c04_error_unchanged_refuted` — the known findings `rejected-but-applied:*` — live, one per disjunct
+   (`c04_error_unchanged_refuted_is_outside`).
+
+**Which member is /repo NOW** (probed on every run): since the `fix:` series for C04 (flag kept on in-place paths,
+delete fails only for addressed elements, fast path stores a copy) /repo probes to `patched`; `head` is the member
+of the tree before that series and is kept as record.
 -/
 namespace Spine.Props.C04
 open Spine Spine.Heap
@@ -335,5 +351,131 @@ theorem c04_success_applied_refuted_before_fix :
     (∃ i o, (remoteWrite aw (storeOf [changeable0]) [[some 5, none, none, some 2, none]] .nodata .nil).2 = .done true i o) ∧
     (remoteWrite aw (storeOf [changeable0]) [[some 5, none, none, some 2, none]] .nodata .nil).1.readStore = [changeable0] :=
   ⟨⟨1, some 2, by decide⟩, by decide⟩
+
+/-! ### clause 4 on the selector, identifier-less and delete paths; clause 3, exact region -/
+
+/-- PROVED (every member, every shape, local or remote, all seven filter shapes): **a write answered with success
+    has applied all of its changes** — the list a successful `UpdateList` call returns is the complete application
+    of the partial part (`partialApplied`: overlay on the first matching item / on every item / merge) to the
+    complete application of the delete part (`delPhaseApplied`: every hit item removed resp. stripped of the named
+    elements). Neither function contains a writability test or a skip. -/
+theorem c04_success_all_applied (c : UCfg) (sh : Shape) (remote : Bool) (ex nw : List Item) (fp fd : Option Filter)
+    (r : Res) (h : updateListF c sh remote ex nw fp fd = .ok r) (hok : r.ok = true) :
+    r.out = partialApplied c sh remote nw fp (delPhaseApplied c sh remote fd ex) :=
+  updateListF_success_applied c sh remote ex nw fp fd r h hok
+
+/-- non-vacuity on the member /repo probes to: delete limit 0 by selector and write value 2 to all remaining limits
+    of [changeable0, changeable2]; a selector write on [fixed1, changeable2] selecting limit 2 -/
+example : (match updateListF patched.u lc true [changeable0, changeable2] [[none, none, none, some 2, none]] none (some ⟨some (selId 0), none⟩) with
+      | .ok r => r.ok && decide (r.out = [[some 2, some 1, none, some 2, none]]) | .panic _ => false) = true ∧
+    partialApplied patched.u lc true [[none, none, none, some 2, none]] none
+      (delPhaseApplied patched.u lc true (some ⟨some (selId 0), none⟩) [changeable0, changeable2]) = [[some 2, some 1, none, some 2, none]] ∧
+    (match updateListF patched.u lc true [fixed1, changeable2] [[none, none, none, some 7, none]] (some ⟨some (selId 2), none⟩) none with
+      | .ok r => r.ok && decide (r.out = [fixed1, [some 2, some 1, none, some 7, none]]) | .panic _ => false) = true := by
+  decide
+
+/-- PROVED on the stored data (every member): a remote persisting write through the engine that is answered with
+    success leaves as the function's data exactly the complete application of its delete part and its partial
+    part to the data stored before. -/
+theorem c04_success_all_applied_store (c : Cfg) (sh : Shape) (h : H) (hw : h.WF) (nw : List Item) (fp fd : FArg)
+    (hnf : fastPath c (h.allocValue nw).1 true true fp fd = false)
+    (hsucc : ∃ i o, (updateData c sh h true true nw fp fd).2 = .done true i o) :
+    (updateData c sh h true true nw fp fd).1.readStore =
+      partialApplied c.u sh true nw fp.toOpt (delPhaseApplied c.u sh true fd.toOpt h.readStore) :=
+  updateData_success_applied c sh hw nw fp fd hnf hsucc
+
+example : (remoteWrite patched (storeOf [fixed1, changeable2]) [[none, none, none, some 7, none]] (.data ⟨some (selId 2), none⟩) .nil).2
+      = .done true 1 (some 2) ∧
+    (remoteWrite patched (storeOf [fixed1, changeable2]) [[none, none, none, some 7, none]] (.data ⟨some (selId 2), none⟩) .nil).1.readStore
+      = [fixed1, [some 2, some 1, none, some 7, none]] := by decide
+
+/-- PROVED: in a successful REMOTE selector write the element the overlay went to — the first one the selector
+    matches — is writable, and the result is the stored list with exactly that element overlaid. -/
+theorem c04_success_selector_writable (c : UCfg) (sh : Shape) (sel nw : Item) (pre : List Item) (x : Item)
+    (post r : List Item) (h : copyToSelectedF c sh true (pre ++ x :: post) sel nw = .ok (r, true))
+    (hpre : ∀ y ∈ pre, selectorMatchF c sh sel y = .ok false) (hx : selectorMatchF c sh sel x = .ok true) :
+    writeAllowed sh x = true ∧ r = pre ++ copyNonNilF c sh true nw x :: post := by
+  refine ⟨copyToSelectedF_success_writable c sh sel nw pre x post r h hpre hx, ?_⟩
+  rw [copyToSelectedF_success c sh true sel nw _ r h]
+  exact selApplied_first_match c sh true sel nw pre x post hpre hx
+
+/-- PROVED: a successful remote identifier-less write found every element writable and overlaid every element; a
+    successful remote delete hit writable elements only (on members with `deleteStrict` on: found no unwritable
+    element at all) and its result is the complete application of the filter. -/
+theorem c04_success_delete_addressed_writable (c : UCfg) (sh : Shape) (f : Filter) (ex ip out : List Item)
+    (h : deleteFilteredF c sh true ex f = .ok (ip, out, true)) :
+    out = delApplied c sh true f ex ∧
+    ∀ x ∈ ex, writeAllowed sh x = false → c.deleteStrict = false ∧ hitOf c sh f x = .ok false := by
+  obtain ⟨h1, h2⟩ := deleteFilteredF_success c sh true f ex ip out h
+  exact ⟨h1, h2 rfl⟩
+
+theorem c04_success_identifierless_all_writable (c : UCfg) (sh : Shape) (ex : List Item) (nw : Item)
+    (h : (copyToAllF c sh true ex nw).2 = true) :
+    (copyToAllF c sh true ex nw).1 = allApplied c sh true nw ex ∧ ∀ x ∈ ex, writeAllowed sh x = true := by
+  obtain ⟨h1, h2⟩ := copyToAllF_success c sh true ex nw h
+  exact ⟨h1, h2 rfl⟩
+
+example : (copyToAllF patched.u lc true [changeable0, changeable2] [none, none, none, some 2, none]).2 = true ∧
+    (match deleteFilteredF patched.u lc true [changeable0, fixed1] ⟨some (selId 0), none⟩ with
+     | .ok (_, out, ok) => ok && decide (out = [fixed1]) | .panic _ => false) = true := by decide
+
+/-- PROVED, what "applied" means field by field: (i) the overlay of the selector and identifier-less paths carries
+    every field the written item names, except — on members that keep the flag on remote writes — the flag;
+    (ii) a delete with a selector alone keeps exactly the elements the selector does not hit; (iii) a delete with
+    elements keeps every element and clears, in every hit one, every field an element names, except the flag on
+    those members. -/
+theorem c04_applied_fields_overlay (c : UCfg) (sh : Shape) (remote : Bool) (nw x : Item) (hl : nw.length = x.length)
+    (j : Nat) (hj : j < x.length) (hb : (nw.get j).isSome = true) (hf : sh.flag ≠ some j) :
+    (copyNonNilF c sh remote nw x).get j = nw.get j :=
+  copyNonNilF_applied c sh remote nw x hl j hj hb hf
+
+theorem c04_applied_fields_delete_selector (c : UCfg) (sh : Shape) (remote : Bool) (sel : Item) (ex : List Item) :
+    delApplied c sh remote ⟨some sel, none⟩ ex = ex.filter fun x => !hitB c sh ⟨some sel, none⟩ x :=
+  delApplied_selector c sh remote sel ex
+
+theorem c04_applied_fields_delete_elements (c : UCfg) (sh : Shape) (remote : Bool) (fs : Option Item) (el : Item)
+    (ex : List Item) :
+    delApplied c sh remote ⟨fs, some el⟩ ex
+      = ex.map (fun x => delItem c sh remote ⟨fs, some el⟩ (hitB c sh ⟨fs, some el⟩ x) x) ∧
+    ∀ x, sh.elN = x.length → ∀ j i, j < el.length → (el.get j).isSome = true → (sh.elMap[j]?).join = some i →
+      i < x.length → sh.flag ≠ some i → (delItem c sh remote ⟨fs, some el⟩ true x).get i = none :=
+  ⟨delApplied_elements c sh remote fs el ex,
+   fun x hn j i hj hel hm hi hf => delItem_cleared c sh remote fs el x hn j i hj hel hm hi hf⟩
+
+example : delApplied patched.u lc true ⟨none, some elValue⟩ [changeable0, changeable2]
+      = [[some 0, some 1, none, none, none], [some 2, some 1, none, none, none]] ∧
+    (copyNonNilF patched.u lc true [none, some 0, none, some 7, none] changeable2) = [some 2, some 1, none, some 7, none] := by
+  decide
+
+/-- PROVED, clause 3 in its exact region (every member, every shape): a remote persisting write through the
+    engine whose delete filter names no elements and whose partial part, on an in-place path (selector,
+    identifier-less), addresses no WRITABLE stored element — the merge path always qualifies — and that is answered
+    with an error leaves the function's data exactly as it was. -/
+theorem c04_error_unchanged_exact (c : Cfg) (sh : Shape) (h : H) (hw : h.WF) (nw : List Item) (fp fd : FArg)
+    (hnf : fastPath c (h.allocValue nw).1 true true fp fd = false)
+    (hel : ∀ f, fd.toOpt = some f → f.el = none)
+    (ht : partialTouches c.u sh true nw fp.toOpt h.readStore = false)
+    (herr : ∃ i o, (updateData c sh h true true nw fp fd).2 = .done false i o) :
+    (updateData c sh h true true nw fp fd).1.readStore = h.readStore :=
+  updateData_error_unchanged c sh hw nw fp fd hnf hel ht herr
+
+/-- non-vacuity: a selector write to the unchangeable limit 1 alone, and a delete by selector that hits it, are
+    rejected on the member /repo probes to and lie inside the region -/
+example : (remoteWrite patched (storeOf [changeable0, fixed1]) [[none, none, none, some 7, none]] (.data ⟨some (selId 1), none⟩) .nil).2
+      = .done false 1 none ∧
+    partialTouches patched.u lc true [[none, none, none, some 7, none]] (some ⟨some (selId 1), none⟩) (storeOf [changeable0, fixed1]).readStore = false ∧
+    (remoteWrite patched (storeOf [changeable0, fixed1]) [] .nil (.data ⟨some (selId 1), none⟩)).2 = .done false 1 none := by
+  decide
+
+/-- the region is exact: each of the three refutation witnesses of `c04_error_unchanged_refuted` violates exactly
+    one hypothesis of `c04_error_unchanged_exact` — the identifier-less and the selector write address a writable
+    element on an in-place path, the delete names elements -/
+theorem c04_error_unchanged_refuted_is_outside : ∀ c ∈ [head, patched],
+    partialTouches c.u lc true [[none, none, none, some 2, none]] none (storeOf [changeable0, fixed1]).readStore = true ∧
+    partialTouches c.u lc true [[none, none, none, some 2, none]] (some ⟨some selAll, none⟩) (storeOf [fixed1, changeable2]).readStore = true ∧
+    (⟨none, some elValue⟩ : Filter).el ≠ none := by
+  intro c hc
+  simp only [List.mem_cons, List.mem_nil_iff, or_false] at hc
+  rcases hc with rfl | rfl <;> exact ⟨by decide, by decide, by decide⟩
 
 end Spine.Props.C04
